@@ -101,4 +101,76 @@ def access (H : Hier) (fb : Fallback) (D : Decls) (scope : Option Name) (recv : 
       | some true => .allowed
       | some false => .denied
 
+/-! ## Round 7: WHICH class a protected member is judged by
+
+`canAccessDeclared` hands the class the walk stopped at — the NEAREST declaration — to `canAccessMember`. A change
+that walks on first (`rootDeclaringClass`: "judge protected members by the class that first declared them") hands
+over another class; which one is the regenerated fact `Generated.C07Access.judgeRel`. -/
+
+inductive Judge where
+  | nearest       -- the class the walk stopped at
+  | topmost       -- the top-most ancestor that declares the name, whatever its modifier there
+  | prototype     -- upwards through declaring ancestors as long as their declaration is not private (PHP's method prototype)
+  | shapeChanged
+deriving DecidableEq, Repr, Inhabited
+
+/-- `for c := decl; c != nil; c = parentClassOf(vm, c) { if declares(c) { decl = c } }`; `none`: out of fuel -/
+def topmost (H : Hier) (D : Decls) : Nat → Option Name → Name → Option Name
+  | _, none, best => some best
+  | 0, some _, _ => none
+  | f+1, some c, best => topmost H D f (parentOf H c) (if (D c).isSome then c else best)
+
+/-- the same walk that stops in front of a private declaration -/
+def protoRoot (H : Hier) (D : Decls) : Nat → Option Name → Name → Option Name
+  | _, none, best => some best
+  | 0, some _, _ => none
+  | f+1, some c, best =>
+    match D c with
+    | none => protoRoot H D f (parentOf H c) best
+    | some .priv => some best
+    | some _ => protoRoot H D f (parentOf H c) c
+
+/-- the class handed to `canAccessMember`; outer `none`: a walk did not terminate -/
+def judgedClass (H : Hier) (j : Judge) (D : Decls) (m : Mod) : Option Name → Option (Option Name)
+  | none => some none
+  | some d =>
+    if m = .prot then
+      match j with
+      | .nearest => some (some d)
+      | .topmost => (topmost H D (fuel H) (some d) d).map some
+      | .prototype => (protoRoot H D (fuel H) (parentOf H d) d).map some
+      | .shapeChanged => some (some d)
+    else some (some d)
+
+/-- `canAccessDeclared` with the judged class made explicit -/
+def canAccessDeclaredJ (H : Hier) (fb : Fallback) (j : Judge) (D : Decls) (scope : Option Name) (recv : Name)
+    (m : Mod) : Option Bool :=
+  match findDecl H D (fuel H) (some recv) with
+  | none => none
+  | some decl =>
+    match judgedClass H j D m decl with
+    | none => none
+    | some jd =>
+      match memberRule H m scope jd with
+      | none => none
+      | some true => some true
+      | some false =>
+        match scope with
+        | none => some false
+        | some s => if (D s).isSome then fallbackTest H fb recv s else some false
+
+def accessJ (H : Hier) (fb : Fallback) (j : Judge) (D : Decls) (scope : Option Name) (recv : Name) : Ans :=
+  match findDecl H D (fuel H) (some recv) with
+  | none => .stuck
+  | some none => .nomember
+  | some (some d) =>
+    match D d with
+    | none => .nomember
+    | some .pub => .allowed
+    | some m =>
+      match canAccessDeclaredJ H fb j D scope recv m with
+      | none => .stuck
+      | some true => .allowed
+      | some false => .denied
+
 end Model.AccessDecl
